@@ -1,4 +1,5 @@
 pub mod direct;
 pub mod duplex;
+pub mod hsscript;
 pub mod rxscript;
 pub mod txscript;
